@@ -9,12 +9,13 @@ Rows(k) == [1..k -> SeqsUpTo(ValAlphabet, MaxVals)]
 Cases == {[kind |-> "count", n |-> n] : n \in Counts}
          \cup {[kind |-> "keys", keys |-> ks] : ks \in SeqsUpTo(KeyAlphabet, MaxKeys)}
          \cup UNION {{[kind |-> "matrix", mk |-> mk, mv |-> mv] : mv \in Rows(Len(mk))} : mk \in MatrixKeySeqs}
+Mixed == {[kind |-> "mixed", types |-> t] : t \in {<<"count", "keys">>, <<"count", "matrix">>, <<"keys", "matrix">>, <<"count", "keys", "matrix">>}}
 MKS == {<<"goarch">>, <<"goarch", "goos">>, <<"a", "ab", "b">>}
 MKSbig == MKS \cup {<<"a", "b", "c", "d">>}
-Init == c \in Cases
+Init == c \in Cases \cup Mixed
 Next == UNCHANGED c
 Spec == Init /\ [][Next]_c
-InvSize == SpecSize(c)
-InvDistinct == SpecDistinct(c)
+InvSize == c.kind = "mixed" \/ SpecSize(c)
+InvDistinct == c.kind = "mixed" \/ SpecDistinct(c)
 Emit == PrintT(<<"CASE", ToJson(c)>>)
 ====
